@@ -27,7 +27,9 @@ import (
 	"fmt"
 	"sort"
 	"strings"
+	"sync/atomic"
 	"testing"
+	"testing/synctest"
 	"time"
 
 	"github.com/refraction-networking/uquic/internal/protocol"
@@ -42,6 +44,7 @@ type c16e3Variant struct {
 	IDs     int  // NEW_CONNECTION_ID frames (sequence numbers 1..IDs) accepted before the threads start
 	Zero    bool // zero-length connection IDs
 	Paths   int
+	Waiting []int // paths whose Probe is already running (registered, queued for probing, waiting in its select) when the threads start
 	Threads [][]string
 }
 
@@ -57,16 +60,16 @@ type c16e3Variant struct {
 // which changes Probe's return value only - no scheduler point follows and nothing the oracle
 // or the outcome classes read.
 var c16e3Variants = []c16e3Variant{
-	{"probe1|next|close1", 2, false, 1, [][]string{{"probe1"}, {"next"}, {"close1"}}},
-	{"probe1|next-next|timer1|close1", 2, false, 1, [][]string{{"probe1"}, {"next", "next"}, {"timer1"}, {"close1"}}},
-	{"probe1|next-resp|close1", 2, false, 1, [][]string{{"probe1"}, {"next", "resp"}, {"close1"}}},
-	{"probe1|next-resp-sw|switch1-close1", 2, false, 1, [][]string{{"probe1"}, {"next", "resp", "sw"}, {"switch1", "close1"}}},
-	{"probe1|probe2|next-next|close1", 3, false, 2, [][]string{{"probe1"}, {"probe2"}, {"next", "next"}, {"close1"}}},
-	{"probe1|probe2|next-next|close1|close2", 3, false, 2, [][]string{{"probe1"}, {"probe2"}, {"next", "next"}, {"close1"}, {"close2"}}},
-	{"probe1|probe2|next-resp-next-sw|switch1-close2", 3, false, 2, [][]string{{"probe1"}, {"probe2"}, {"next", "resp", "next", "sw"}, {"switch1", "close2"}}},
-	{"no-ids:probe1|next-ncid-next|close1", 0, false, 1, [][]string{{"probe1"}, {"next", "ncid", "next"}, {"close1"}}},
-	{"one-id:probe1|probe2|next-next-ncid-next|close1", 1, false, 2, [][]string{{"probe1"}, {"probe2"}, {"next", "next", "ncid", "next"}, {"close1"}}},
-	{"zerolen:probe1|next-resp|close1", 0, true, 1, [][]string{{"probe1"}, {"next", "resp"}, {"close1"}}},
+	{"probe1|next|close1", 2, false, 1, nil, [][]string{{"probe1"}, {"next"}, {"close1"}}},
+	{"probing1:next-next|timer1|close1", 2, false, 1, []int{1}, [][]string{{"next", "next"}, {"timer1"}, {"close1"}}},
+	{"probing1:next-resp|close1", 2, false, 1, []int{1}, [][]string{{"next", "resp"}, {"close1"}}},
+	{"probing1:next-resp-sw|switch1-close1", 2, false, 1, []int{1}, [][]string{{"next", "resp", "sw"}, {"switch1", "close1"}}},
+	{"probing1:probe2|next-next|close1", 3, false, 2, []int{1}, [][]string{{"probe2"}, {"next", "next"}, {"close1"}}},
+	{"probing1+2:next-next|close1|close2", 3, false, 2, []int{1, 2}, [][]string{{"next", "next"}, {"close1"}, {"close2"}}},
+	{"probing1+2:next-resp-next-sw|switch1-close2", 3, false, 2, []int{1, 2}, [][]string{{"next", "resp", "next", "sw"}, {"switch1", "close2"}}},
+	{"no-ids:probing1:next-ncid-next|close1", 0, false, 1, []int{1}, [][]string{{"next", "ncid", "next"}, {"close1"}}},
+	{"one-id:probing1+2:next-next-ncid-next|close1", 1, false, 2, []int{1, 2}, [][]string{{"next", "next", "ncid", "next"}, {"close1"}}},
+	{"zerolen:probing1:next-resp|close1", 0, true, 1, []int{1}, [][]string{{"next", "resp"}, {"close1"}}},
 }
 
 type c16e3Replay struct {
@@ -85,16 +88,18 @@ type c16e3Path struct {
 	tr   *Transport
 	trMu *vsync.Mutex // stands for the mutex of the path's Transport that enablePath takes
 
-	probeInFlight int
+	probeInFlight atomic.Int32 // Probe calls that have not returned
+	probeWaiting  bool         // a Probe of this path has been seen waiting in its select (path registered and queued)
 	closeInFlight int
 	closeCalled   bool
 	abandoned     bool // some Path.Close returned nil
+	earlyClose    bool // Close was called before a Probe of this path had reached its select
 	overlap       bool // a NextPathToProbe call and a Close call of this path overlapped
-	validated     bool // the PATH_RESPONSE for one of its challenges has been processed
-	validAtClose  bool // ... before Close was called
+	validated     bool // the PATH_RESPONSE for one of its challenges has been handed to HandlePathResponseFrame
+	validAtClose  bool // ... before Close returned
 	handed        []c16e3Handed
 
-	nextOK, enabled, switchOK, switchErr, closeErr, probeRet int
+	nextOK, enabled, switchOK, switchErr, closeErr int
 }
 
 func c16e3Tok(seq uint64) protocol.StatelessResetToken {
@@ -162,6 +167,13 @@ func c16e3Scenario(v c16e3Variant, suppress map[string]bool) func() *sched.Scena
 			paths[p] = st
 		}
 		ctx, cancel := context.WithCancel(context.Background())
+		for _, p := range v.Waiting {
+			st := paths[p]
+			st.probeInFlight.Add(1)
+			go func() { _ = st.path.Probe(ctx); st.probeInFlight.Add(-1) }() // not a scheduler thread: runs through to its select
+			synctest.Wait()
+			st.probeWaiting = true
+		}
 		nextInFlight := 0
 		var lastChallenge *[8]byte
 		lastChallengePath := 0
@@ -173,18 +185,17 @@ func c16e3Scenario(v c16e3Variant, suppress map[string]bool) func() *sched.Scena
 			case strings.HasPrefix(name, "probe"):
 				st := pn("probe")
 				return func() {
-					st.probeInFlight++
+					st.probeInFlight.Add(1)
 					_ = st.path.Probe(ctx) // the return value is not judged (see the note on select above)
-					st.probeInFlight--
-					st.probeRet++
+					st.probeInFlight.Add(-1)
 				}
 			case strings.HasPrefix(name, "close"):
 				st := pn("close")
 				return func() {
-					st.closeCalled = true
-					if st.closeInFlight == 0 {
-						st.validAtClose = st.validated
+					if !st.closeCalled && !st.probeWaiting {
+						st.earlyClose = true
 					}
+					st.closeCalled = true
 					st.closeInFlight++
 					if nextInFlight > 0 {
 						st.overlap = true
@@ -192,6 +203,9 @@ func c16e3Scenario(v c16e3Variant, suppress map[string]bool) func() *sched.Scena
 					err := st.path.Close()
 					st.closeInFlight--
 					if err == nil {
+						if !st.abandoned {
+							st.validAtClose = st.validated
+						}
 						st.abandoned = true
 					} else {
 						st.closeErr++
@@ -209,7 +223,7 @@ func c16e3Scenario(v c16e3Variant, suppress map[string]bool) func() *sched.Scena
 			case strings.HasPrefix(name, "timer"):
 				st := pn("timer")
 				return func() {
-					if st.probeInFlight > 0 { // the timer belongs to a running Probe
+					if st.probeInFlight.Load() > 0 { // the timer belongs to a running Probe
 						pm.enqueueProbe(st.path)
 					}
 				}
@@ -241,8 +255,8 @@ func c16e3Scenario(v c16e3Variant, suppress map[string]bool) func() *sched.Scena
 						return
 					}
 					respN++
-					pm.HandlePathResponseFrame(&wire.PathResponseFrame{Data: *lastChallenge})
 					paths[lastChallengePath].validated = true
+					pm.HandlePathResponseFrame(&wire.PathResponseFrame{Data: *lastChallenge})
 				}
 			case name == "sw":
 				return func() {
@@ -283,14 +297,17 @@ func c16e3Scenario(v c16e3Variant, suppress map[string]bool) func() *sched.Scena
 				switch {
 				case st.abandoned:
 					for _, h := range st.handed {
+						// history class of the key, from what the application and the run loop did
 						class := "closed-after-probe-sent"
 						switch {
-						case h.afterAbandon:
-							class = "id-taken-after-close-returned"
-						case st.overlap:
-							class = "close-during-probe-send"
+						case st.earlyClose:
+							class = "close-races-probe-start"
 						case st.validAtClose:
 							class = "closed-after-validation"
+						case st.overlap:
+							class = "close-during-probe-send"
+						case h.afterAbandon:
+							class = "id-taken-after-close-returned"
 						}
 						if retired[h.seq] == 0 {
 							bad("e3:abandoned-path-id-not-retired:"+class, "Path.Close of path %d returned nil, peer connection ID %d had been taken for this path (GetConnIDForPath), but no RETIRE_CONNECTION_ID was queued for it (queued: %v)", p, h.seq, c16e3Keys(retired))
@@ -317,6 +334,13 @@ func c16e3Scenario(v c16e3Variant, suppress map[string]bool) func() *sched.Scena
 		}
 		return &sched.Scenario{
 			Threads: threads,
+			Observe: func(blocked []string) {
+				for _, b := range blocked {
+					if i := strings.Index(b, ":probe"); i >= 0 {
+						paths[int(b[i+6]-'0')].probeWaiting = true
+					}
+				}
+			},
 			Final: func(blocked []string) *explore.Fail {
 				for _, b := range blocked {
 					// only Probe may still be waiting (for a PATH_RESPONSE nobody sends)
